@@ -30,9 +30,9 @@ pub const SUBS: &[SubDef] = &[
 ];
 
 fn run(ctx: &Ctx) {
-    ctx.run_tape("tls_parsed", tls_parsed, ctx.pick(120_000, 300_000), 400);
+    ctx.run_tape("tls_parsed", tls_parsed, ctx.pick(50_000, 300_000), 400);
     ctx.run_tape("dtls_parsed", dtls_parsed, ctx.pick(80_000, 200_000), 400);
-    ctx.run_tape("constructed", constructed, ctx.pick(120_000, 300_000), 300);
+    ctx.run_tape("constructed", constructed, ctx.pick(50_000, 300_000), 300);
     ctx.run_tape("server", server, ctx.pick(80_000, 200_000), 200);
 }
 
@@ -48,9 +48,11 @@ fn osame(a: Option<&[u8]>, b: Option<&[u8]>) -> bool {
 }
 
 /// expected registry lookups for a cipher list: Some(name) iff listed
-fn expected_suites(ids: &[u16]) -> Result<Vec<Option<String>>, Fail> {
+fn expected_suites(ids: &[u16]) -> Result<Vec<Option<&'static str>>, Fail> {
+    static MAP: std::sync::OnceLock<std::collections::HashMap<u16, &'static str>> = std::sync::OnceLock::new();
     let tb = super::c12::tabs()?;
-    Ok(ids.iter().map(|id| tb.file.iter().find(|r| r.id == *id).map(|r| r.name.clone())).collect())
+    let map = MAP.get_or_init(|| tb.file.iter().map(|r| (r.id, r.name.as_str())).collect());
+    Ok(ids.iter().map(|id| map.get(id).copied()).collect())
 }
 
 fn got_suites(v: &[Option<&'static TlsCipherSuite>], ids: &[u16], what: &str) -> R {
@@ -59,7 +61,7 @@ fn got_suites(v: &[Option<&'static TlsCipherSuite>], ids: &[u16], what: &str) ->
     for (i, (g, w)) in v.iter().zip(want.iter()).enumerate() {
         match (g, w) {
             (None, None) => {}
-            (Some(s), Some(n)) => ensure!(s.id.0 == ids[i] && s.name == n.as_str(), format!("C15:{}:wrong-entry", what), "{}: position {} (id {:#06x}) maps to {:#06x} {}", what, i, ids[i], s.id.0, s.name),
+            (Some(s), Some(n)) => ensure!(s.id.0 == ids[i] && s.name == *n, format!("C15:{}:wrong-entry", what), "{}: position {} (id {:#06x}) maps to {:#06x} {}", what, i, ids[i], s.id.0, s.name),
             (Some(s), None) => return fail(format!("C15:{}:phantom", what), format!("{}: unlisted id {:#06x} at position {} maps to {}", what, ids[i], i, s.name)),
             (None, Some(n)) => return fail(format!("C15:{}:missing", what), format!("{}: id {:#06x} ({}) at position {} maps to None", what, ids[i], n, i)),
         }
@@ -87,7 +89,18 @@ fn check_trait<'a>(h: &dyn ClientHello<'a>, version: u16, random: &[u8], sid: Op
 
 /// cipher list mixing registry ids and unlisted ones
 fn mixed_ciphers(t: &mut Tape) -> Vec<u16> {
-    let n = t.small(40);
+    mixed_ciphers_n(t, 32767)
+}
+
+/// up to `max` ids: mostly short lists, sometimes at the thresholds (255/256, 32766/32767, and for constructed values 65535/65536 and beyond)
+fn mixed_ciphers_n(t: &mut Tape, max: usize) -> Vec<u16> {
+    let n = if t.chance(254) { t.small(40) } else { t.pick(&[255usize, 256, 4096, 32766, 32767, 65535, 65536, 65537, 70000]).min(max) };
+    if n > 40 {
+        let tb = super::c12::tabs().ok();
+        let k = tb.map(|x| x.file.len()).unwrap_or(1);
+        // a long list: registry ids and unlisted ids interleaved, with listed ids at both ends
+        return (0..n).map(|i| match (i % 3, &tb) { (0, Some(tb)) => tb.file[(i / 3) % k].id, (1, Some(tb)) if i + 2 >= n => tb.file[i % k].id, _ => (i as u16).wrapping_mul(7) }).collect();
+    }
     let tb = super::c12::tabs().ok();
     (0..n)
         .map(|_| match (t.below(3), &tb) {
@@ -197,7 +210,7 @@ fn constructed(t: &mut Tape, obs: &mut Obs) -> R {
         random[..4].copy_from_slice(&w.to_be_bytes());
     }
     let sid = if t.bool() { Some(t.small_blob(64)) } else { None };
-    let ciphers = mixed_ciphers(t);
+    let ciphers = mixed_ciphers_n(t, 70000);
     let comp = t.small_blob(20);
     let ext = if t.bool() { Some(t.small_blob(64)) } else { None };
     obs.nontrivial(fnv64(&random) ^ fnv64(&comp) ^ ((v as u64) << 32) ^ ciphers.len() as u64);
